@@ -2,9 +2,18 @@ package main
 
 import (
 	"github.com/teleport-network/teleport/app"
+	bsctypes "github.com/teleport-network/teleport/x/xibc/clients/light-clients/bsc/types"
+	ethtypes "github.com/teleport-network/teleport/x/xibc/clients/light-clients/eth/types"
+	tmtypes "github.com/teleport-network/teleport/x/xibc/clients/light-clients/tendermint/types"
+	tsstypes "github.com/teleport-network/teleport/x/xibc/clients/tss-client/types"
+	clienttypes "github.com/teleport-network/teleport/x/xibc/core/client/types"
+	packettypes "github.com/teleport-network/teleport/x/xibc/core/packet/types"
+	"github.com/teleport-network/teleport/x/xibc/exported"
+
 	aggtypes "github.com/teleport-network/teleport/x/aggregate/types"
 	rvtypes "github.com/teleport-network/teleport/x/rvesting/types"
 	xibctypes "github.com/teleport-network/teleport/x/xibc/types"
+	"verifharness/hlib"
 )
 
 // A generated genesis is validated by the modules' own ValidateGenesis; when it is accepted it is imported into a
@@ -17,8 +26,12 @@ func runGenesisInput(res *Result) {
 	for _, p := range g.Pairs {
 		ag.TokenPairs = append(ag.TokenPairs, aggtypes.TokenPair{ERC20Address: p.Erc20, Denoms: p.Denoms, Enabled: p.Enabled, ContractOwner: aggtypes.Owner(p.Owner)})
 	}
+	xg := xibctypes.DefaultGenesisState()
+	if g.Xibc != nil {
+		xg = buildXibc(g.Xibc)
+	}
 	secs := Sections{
-		Xibc: cdc.MustMarshalJSON(xibctypes.DefaultGenesisState()),
+		Xibc: cdc.MustMarshalJSON(xg),
 		Agg:  cdc.MustMarshalJSON(&ag),
 		Rv:   cdc.MustMarshalJSON(rvtypes.DefaultGenesisState()),
 	}
@@ -76,4 +89,120 @@ func merge(dst, src *Tables) {
 	add(&dst.Hex, src.Hex)
 	add(&dst.Den, src.Den)
 	add(&dst.Name, src.Name)
+	add(&dst.Acc, src.Acc)
+	haveS := func(rows []StateRow) map[string]bool {
+		h := map[string]bool{}
+		for _, r := range rows {
+			h[r.Value] = true
+		}
+		return h
+	}
+	hc := haveS(dst.CS)
+	for _, r := range src.CS {
+		if !hc[r.Value] {
+			dst.CS = append(dst.CS, r)
+		}
+	}
+	hn := haveS(dst.Cons)
+	for _, r := range src.Cons {
+		if !hn[r.Value] {
+			dst.Cons = append(dst.Cons, r)
+		}
+	}
+	hr := map[string]bool{}
+	for _, r := range dst.Rel {
+		hr[r.Value] = true
+	}
+	for _, r := range src.Rel {
+		if !hr[r.Value] {
+			dst.Rel = append(dst.Rel, r)
+		}
+	}
+}
+
+// the xibc genesis a spec describes (client / consensus states of the four types built the way the histories build them)
+func buildXibc(x *XibcIn) *xibctypes.GenesisState {
+	w := newWorld()
+	cg := clienttypes.GenesisState{Clients: []clienttypes.IdentifiedClientState{}, ClientsConsensus: clienttypes.ClientsConsensusStates{},
+		ClientsMetadata: []clienttypes.IdentifiedGenesisMetadata{}, NativeChainName: x.Native}
+	for _, c := range x.Clients {
+		cs, _, _ := w.mkStates(Op{T: c.T, Rev: c.Rev, H: c.H, N: c.N, Epoch: c.Epoch, Vals: c.Vals})
+		if c.Bad {
+			cs = badClientState(cs)
+		}
+		cg.Clients = append(cg.Clients, clienttypes.NewIdentifiedClientState(c.Name, cs))
+	}
+	for _, grp := range x.Consensus {
+		ccs := clienttypes.ClientConsensusStates{ChainName: grp.Name}
+		for _, st := range grp.States {
+			rev, h := u64(st.Rev), u64(st.H)
+			typ := st.T
+			if typ == tTM {
+				typ = exported.Tendermint
+			}
+			cons := w.consOf(typ, rev, h, byte(st.Salt))
+			if st.Bad {
+				cons = badConsState(cons)
+			}
+			ccs.ConsensusStates = append(ccs.ConsensusStates, clienttypes.NewConsensusStateWithHeight(clienttypes.NewHeight(rev, h), cons))
+		}
+		cg.ClientsConsensus = append(cg.ClientsConsensus, ccs)
+	}
+	for _, m := range x.Metadata {
+		igm := clienttypes.IdentifiedGenesisMetadata{ChainName: m.Name}
+		for _, kv := range m.KVs {
+			igm.Metadata = append(igm.Metadata, clienttypes.GenesisMetadata{Key: unhexNil(kv[0]), Value: unhexNil(kv[1])})
+		}
+		cg.ClientsMetadata = append(cg.ClientsMetadata, igm)
+	}
+	for _, r := range x.Relayers {
+		cg.Relayers = append(cg.Relayers, clienttypes.IdentifiedRelayer{Address: r.Address, Chains: r.Chains, Addresses: r.Addresses})
+	}
+	pkts := func(in []PktIn) []packettypes.PacketState {
+		out := []packettypes.PacketState{}
+		for _, p := range in {
+			out = append(out, packettypes.PacketState{SrcChain: p.Src, DstChain: p.Dst, Sequence: u64(p.Seq), Data: unhexNil(p.Data)})
+		}
+		return out
+	}
+	pg := packettypes.GenesisState{Acknowledgements: pkts(x.Acks), Commitments: pkts(x.Commitments), Receipts: pkts(x.Receipts), SendSequences: []packettypes.PacketSequence{}}
+	for _, p := range x.SendSeqs {
+		pg.SendSequences = append(pg.SendSequences, packettypes.PacketSequence{SrcChain: p.Src, DstChain: p.Dst, Sequence: u64(p.Seq)})
+	}
+	return &xibctypes.GenesisState{ClientGenesis: cg, PacketGenesis: pg}
+}
+
+func unhexNil(s string) []byte {
+	if s == "" {
+		return nil
+	}
+	return hlib.UnHex(s)
+}
+
+// a client state of the same type that its own Validate refuses
+func badClientState(cs exported.ClientState) exported.ClientState {
+	switch c := cs.(type) {
+	case *tmtypes.ClientState:
+		c.ChainId = ""
+	case *bsctypes.ClientState:
+		c.Epoch = 0
+	case *ethtypes.ClientState:
+		c.Header.Bloom = rep(7, 257)
+	case *tsstypes.ClientState:
+		c.TssAddress = ""
+	}
+	return cs
+}
+
+// a consensus state of the same type that its own ValidateBasic refuses
+func badConsState(cs exported.ConsensusState) exported.ConsensusState {
+	switch c := cs.(type) {
+	case *tmtypes.ConsensusState:
+		c.Root = nil
+	case *bsctypes.ConsensusState:
+		c.Root = nil
+	case *ethtypes.ConsensusState:
+		c.Root = nil
+	}
+	return cs
 }
